@@ -293,8 +293,8 @@ def fam_lifetimes():
 
 def build(tier, seed):
     rng = random.Random(seed * 104729 + 5)
-    rounds = 1 if tier == "quick" else 8
-    P = fam_lengths(rng, rounds) + fam_auto(rng, 1 if tier == "quick" else 3) + fam_lifetimes()
+    rounds = 2 if tier == "quick" else 10
+    P = fam_lengths(rng, rounds) + fam_auto(rng, 2 if tier == "quick" else 4) + fam_lifetimes()
     seen = set()
     out = []
     for p in P:
